@@ -611,7 +611,12 @@ class Values:
                     d = BEP_DESC[key]
                     if not (self.state_ok('reactants', d, kb) and self.state_ok('products', d, kb)):
                         return None
-                out.append((nu, R.species_value(sp, quant, kw, reaction=self.rxn)))
+                v = R.species_value(sp, quant, kw, reaction=self.rxn)
+                if np.size(v) != 1:
+                    # the BEP's value goes through the reaction: at scalar conditions it is one number
+                    raise _NotScalar('%s.get_%s(reaction=...) at scalar conditions has shape %r'
+                                     % (key, quant, np.shape(v)))
+                out.append((nu, v))
             else:
                 v = self.plain(sp, key, quant, kw)
                 if v is None:
@@ -631,6 +636,19 @@ def _initial_final(rev, act):
 
 class _Failed(Exception):
     pass
+
+
+class _NotScalar(Exception):
+    pass
+
+
+def _div(a, *bs):
+    """a / b / ... without ZeroDivisionError (inf / nan fail the comparison instead)"""
+    out = np.asarray(a, dtype=float)
+    with np.errstate(all='ignore'):
+        for b in bs:
+            out = out / np.asarray(b, dtype=float)
+    return float(out) if out.ndim == 0 else out
 
 
 def _call(ctx, sig, case, fn, *a, **kw):
@@ -891,7 +909,7 @@ def _clauses(ctx, case, sig0, rxn, states, vals, kw, kws, n, quants, clamped_cls
             sig = dict(sig0, getter=name_delta, law='detailed-balance')
             if quant == 'q':
                 ctv.close('forward minus reverse activation quantity = reaction change (ratio for q)',
-                          got[(False, True)] / got[(True, True)] / got[(False, False)],
+                          _div(got[(False, True)], got[(True, True)], got[(False, False)]),
                           one(), sig, case, rtol=1e-9, atol=0.0)
             else:
                 ctv.close('forward minus reverse activation quantity = reaction change (ratio for q)',
@@ -1010,7 +1028,7 @@ def _clauses(ctx, case, sig0, rxn, states, vals, kw, kws, n, quants, clamped_cls
                          np.size(prod) in (1, np.size(sc)) and bool(np.all(abs(prod - 1.0) <= 1e-10 * sc)),
                          dict(sig0, getter='get_Keq', law='reversal'), case, _jl(prod), 1.0)
             if (False, True) in K and (True, True) in K and (False, False) in K:
-                ratio = K[(False, True)] / K[(True, True)] / K[(False, False)]
+                ratio = _div(K[(False, True)], K[(True, True)], K[(False, False)])
                 ctx.true('K_act,forward / K_act,reverse = K_forward (within 1e-10 x sum|nu G/RT|)',
                          np.size(ratio) in (1, np.size(sc)) and bool(np.all(abs(ratio - 1.0) <= 1e-10 * sc)),
                          dict(sig0, getter='get_Keq', law='detailed-balance'), case, _jl(ratio), 1.0)
@@ -1077,7 +1095,11 @@ def check_config(case, ctx):
     if n is not None:
         ctx.tag('vec:result-scribbled')
     vals = Values(rxn, states, ctx)
-    _clauses(ctx, case, sig0, rxn, states, vals, kw, kws, n, R.QUANT, case['cls'] != 'Reaction')
+    try:
+        _clauses(ctx, case, sig0, rxn, states, vals, kw, kws, n, R.QUANT, case['cls'] != 'Reaction')
+    except _NotScalar as e:
+        ctx.fail('scalar conditions give one number', dict(sig0, getter='BEP through the reaction'), case,
+                 str(e), 'a scalar')
 
 
 # ------------------------------------------------------------------ histories
@@ -1215,8 +1237,13 @@ def check_history(case, ctx):
         for r, tw, tws, cs, which in pairs:
             sig = dict(sig0, call='first' if i == 0 else 'later', reaction=which)
             vals = Values(tw, tws, ctx)
-            _clauses(ctx, case, sig, r, tws, vals, live, [ref_cond], None, HIST_QUANT, clamped,
-                     locality=(i > 0))
+            try:
+                _clauses(ctx, case, sig, r, tws, vals, live, [ref_cond], None, HIST_QUANT, clamped,
+                         locality=(i > 0))
+            except _NotScalar as e:
+                ctx.fail('scalar conditions give one number', dict(sig, getter='BEP through the reaction'), case,
+                         str(e), 'a scalar')
+                return
 
 
 def check_case(case, ctx):
